@@ -399,7 +399,9 @@ teardown(void)
 
 static void spin_hook(void){ FAIL("no-termination", "%d polls in one execution without the request ending (case %zu: %s)", fk_npolls, case_idx, C ? C->desc : "?"); }
 static void blocked_hook(void){ if (prop != 8 || C == NULL || C->in_end == FK_END_NONE) return;	/* a server that neither sends nor closes: waiting is right */
-	if (fk_open_count() == 1 && !fk_conn_established(FK_FD0)) return;	/* a connection attempt that never completes: only the caller can give up */
+	if (fk_open_count() == 1 && !fk_conn_established(FK_FD0)) return;
+	/* the environment may simply not have delivered the rest yet ("nothing arrives" deviations): only a client that was TOLD about the end and still waits is stuck */
+	if (!fk_in_end_delivered(FK_FD0)) return;	/* a connection attempt that never completes: only the caller can give up */
 	FAIL("blocked", "the request waits for ever although the server's bytes ended with EOF or a reset (case %zu: %s)", case_idx, C ? C->desc : "?"); }
 /* Bring every long-lived table of the library (pools, socket list, pollfd array, timer queue) to its working size before tracking starts. */
 static int warm_cb(void * c){ (void)c; return (0); }
